@@ -152,7 +152,7 @@ func buildC05(tier string) *core.Plan {
 				for _, d := range dec {
 					got = append(got, c05NormDecoded(d))
 				}
-				if !core.EqualLoose(got, it.Docs) {
+				if !core.EqualIntsExact(got, it.Docs) {
 					c.Outcome("BKL-READS-BACK-DIFFERENT")
 					c.Fail("round-trip-bkl", "values-differ", wit, map[string]any{"bytes": string(out), "got": got})
 					continue
@@ -166,7 +166,7 @@ func buildC05(tier string) *core.Plan {
 					c.Fail("round-trip-bkl-file", "load-fails", wit, map[string]any{"bytes": string(out), "error": errStr(err)})
 					continue
 				}
-				if !core.EqualLoose(docData(p2), it.Docs) {
+				if !core.EqualIntsExact(docData(p2), it.Docs) {
 					c.Outcome("BKL-LOADS-BACK-DIFFERENT")
 					c.Fail("round-trip-bkl-file", "values-differ", wit, map[string]any{"bytes": string(out), "got": docData(p2)})
 					continue
@@ -193,7 +193,7 @@ func buildC05(tier string) *core.Plan {
 					c.Fail("round-trip-independent", "parse-fails", wit, map[string]any{"bytes": string(b), "error": r.Err})
 					continue
 				}
-				if !core.EqualLoose(r.Docs, it.Docs) {
+				if !core.EqualIntsExact(r.Docs, it.Docs) {
 					c.Outcome("INDEPENDENT-PARSER-DIFFERS")
 					c.Fail("round-trip-independent", "values-differ", wit, map[string]any{"bytes": string(b), "got": r.Docs})
 					continue
